@@ -127,6 +127,30 @@ def tool(chk, w):
         chk.ob("R19.4", "tool:write-after-replace", wrb in cf.reachable(rpb) and rpb not in cf.reachable(wrb), "the model is written before the dictionary is replaced", site=C.site(b, wrb))
         chk.ob("R19.2", "tool:records-through-new", cf.dominates(nwb, rpb) or rpb in cf.reachable(nwb), "replacement records are not built through WordWeightRecord::new", site=C.site(b, nwb))
         # no struct literal of WordWeightRecord in the tool (would not compile, but cheap to assert)
+    # ---- every record is kept: an iteration of the dump loop writes its entry, an iteration of the replace loop builds
+    # and appends its record (or the tool fails); no path goes round the loop without doing so
+    loops = cf.natural_loops()
+    for what, anchor, extra in (("replace", "WordWeightRecord::new", "alloc::vec::Vec::push"), ("dump", "::serialize", None)):
+        sites = [(bb, n) for n, v in calls.items() for bb, _ in v if n.endswith(anchor)]
+        if len(sites) != 1:
+            chk.undecided("R19.3", "tool:%s-loop" % what, "expected one call of *%s in the tool, found %d" % (anchor, len(sites)), site=C.site(b))
+            continue
+        abb = sites[0][0]
+        lp = [(h, blks) for h, blks in loops.items() if abb in blks]
+        if not lp:
+            chk.undecided("R19.3", "tool:%s-loop" % what, "the call of *%s is not inside a loop" % anchor, site=C.site(b, abb))
+            continue
+        h = max(lp, key=lambda x: len(x[1]))[0]   # the record loop is the outermost loop around the call
+        must = [abb]
+        if extra:
+            # the push of the built record: the push whose pushed value is the result of the anchor call
+            pushes = [bb for n, v in calls.items() if n == extra for bb, _ in v if bb in loops[h] and abb in C.blocks_defining_operand(b, bb, 1)]
+            must += pushes[:1]
+            chk.ob("R19.3", "tool:replace:record-pushed", len(pushes) == 1, "the record built by WordWeightRecord::new is pushed at %s (expected exactly one push of it into the new dictionary)" % pushes, site=C.site(b, abb))
+        skip = [m for m in must if cf.paths_avoiding(h, h, {m})]
+        chk.ob("R19.3", "tool:%s:every-record-kept" % what, not skip,
+               "an iteration of the %s loop of manipulate_model can complete without reaching %s: records are dropped silently, so dump followed by replace is not lossless "
+               "(and a dropped record is never validated)" % (what, [C.site(b, m) for m in skip]), site=C.site(b, h), sample={"loop": h, "must": must})
     # ---- R19.3
     ser = one("Writer::serialize")
     des = one("Reader::deserialize")
